@@ -82,6 +82,10 @@ def run_case(seed, tier, rec, st):
         wcfg = config_fn(rng)
         wcfg.pop("_aliases", None)
         wmixin = FORMAT_MIXINS[fmt][0] if fmt else rng.choice(["DataClassDictMixin", None])
+        dialect_hist = bool(fmt) and rng.random() < 0.5
+        if dialect_hist:
+            wcfg["code_generation_options"] = "[ADD_DIALECT_SUPPORT]"
+            fam.exec_src("class EmptyD(Dialect):\n    pass\n")
         fam.add({"k": "dc", "name": wname, "bases": [], "mixin": wmixin,
                  "fields": [{"n": "x", "t": t}], "config": wcfg}, tg.value_maker)
         W = fam.get(wname)
@@ -103,6 +107,16 @@ def run_case(seed, tier, rec, st):
                 _, meth, natives, drop = FORMAT_MIXINS[fmt]
                 obs.append((f"{fmt}-tree", lambda: getattr(w, meth)(encoder=ident), ("dc", wname), w,
                             Ctx(natives=natives, drop_none=drop)))
+                if dialect_hist:
+                    # the same (empty) dialect passed to the format method and to to_dict, in
+                    # both orders over the case: the format's natives must never leak into to_dict
+                    D = fam.module.EmptyD
+                    pair = [(f"{fmt}-tree+dialect", lambda: getattr(w, meth)(encoder=ident, dialect=D), ("dc", wname), w,
+                             Ctx(natives=natives, drop_none=drop)),
+                            ("to_dict+dialect", lambda: w.to_dict(dialect=D), ("dc", wname), w, Ctx())]
+                    if seed & 1:
+                        pair.reverse()
+                    obs += pair
             for name, fn, tt_, vv, ctx in obs:
                 try:
                     exp = ref.enc(tt_, vv, ctx)
